@@ -347,6 +347,37 @@ def bounded(K):
                         bad.append({'field': fname, 'params': [a, b2, b3, g, L], 'problem': '1-pol differs from x-pol of [A; 0]'})
                 except TimeoutError:
                     bad.append({'field': fname, 'params': [a, b2, b3, g, L], 'problem': 'timeout in polarisation equivalence'})
+        # history: the same fibre and record length after the sampling rate changed (nothing may be kept from the earlier call)
+        gv(sps=8, R=10e9)
+        s = fields['gauss-train']
+        a, b2, b3, g, L = params[0]
+        y_first = native_fiber(s, L, alpha=a, beta_2=b2, beta_3=b3, gamma=g, phi_max=0.02)
+        gv(sps=8, R=20e9)
+        n += 1
+        seen.add(('history', 'fs doubled'))
+        try:
+            y = native_fiber(s, L, alpha=a, beta_2=b2, beta_3=b3, gamma=g, phi_max=0.02)
+            ref = reference(s, L, a, b2, b3, g, gv.fs, 4000)
+            e_ = float(np.linalg.norm(y - ref) / np.linalg.norm(ref))
+            if not e_ <= 0.05:
+                bad.append({'field': 'gauss-train', 'params': [a, b2, b3, g, L], 'problem': f'after gv.fs changed from 80 to 160 GS/s the result is {e_:.3f} away from the solution on the new grid'})
+        except TimeoutError:
+            bad.append({'field': 'gauss-train', 'problem': 'timeout after gv change'})
+        # smallest phi_max of the stated range: thousands of nearly equal steps (energy law and accuracy must not drift)
+        gv(sps=8, R=10e9)
+        sp = (np.sqrt(0.5) * (np.exp(-((t - 200) / 60.0) ** 2) + np.exp(-((t - 380) / 50.0) ** 2))).astype(complex)
+        sp[:40] = 0
+        for shape2 in (False, True):
+            s_ = np.array([sp, 0.5 * np.roll(sp, 25)]) if shape2 else sp
+            n += 1
+            seen.add(('tiny-phi', shape2))
+            try:
+                y = native_fiber(s_, 4.0, timeout=240, alpha=0.5, beta_2=-20.0, beta_3=0.1, gamma=5.0, phi_max=5e-4)
+                e_in, e_out = np.sum(np.abs(s_) ** 2, axis=-1), np.sum(np.abs(y) ** 2, axis=-1)
+                if not np.allclose(e_out, e_in * np.exp(-(0.5 / 4.343) * 4.0), rtol=1e-6):
+                    bad.append({'field': 'two wide pulses, leading zeros', 'params': [0.5, -20.0, 0.1, 5.0, 4.0], 'phi_max': 5e-4, 'problem': f'energy ratio {(e_out / e_in).tolist()} instead of {float(np.exp(-(0.5 / 4.343) * 4.0))}'})
+            except TimeoutError:
+                bad.append({'field': 'two wide pulses', 'phi_max': 5e-4, 'problem': 'no result within 240 s'})
         # zero-dispersion wavelength (beta2 = 0, beta3 != 0) on a wide-band grid where third-order dispersion matters
         gv(sps=8, R=40e9)
         fs2 = gv.fs
@@ -372,7 +403,7 @@ def bounded(K):
         return {'n': n, 'distinct': len(seen), 'bad': bad[:6], 'nbad': len(bad)}
     st, r = native(work, 3000)
     K.bounded('nlse_convergence', st == 'ok' and r['nbad'] == 0, {'evaluations': r['n'] if st == 'ok' else 0, 'distinct_nontrivial': r['distinct'] if st == 'ok' else 0,
-              'bound': '2 fields (thorough 3) x 2 parameter sets (thorough 4) x phi_max in {0.1,0.02,0.005}; reference: 4000 fixed steps; N=512; plus two zero-dispersion-wavelength sets (beta2 = 0, beta3 != 0, one of them linear) on short pulses at 320 GS/s', 'samples': [{'field': 'gauss-train', 'alpha': 0.2, 'beta2': -20, 'gamma': 2, 'L': 8}],
+              'bound': '2 fields (thorough 3) x 2 parameter sets (thorough 4) x phi_max in {0.1,0.02,0.005}; reference: 4000 fixed steps; N=512; plus the first set again after gv.fs doubled, phi_max = 5e-4 (energy law over thousands of steps) and two zero-dispersion-wavelength sets (beta2 = 0, beta3 != 0, one of them linear) on short pulses at 320 GS/s', 'samples': [{'field': 'gauss-train', 'alpha': 0.2, 'beta2': -20, 'gamma': 2, 'L': 8}],
               'failures': r if st == 'ok' else [st, r]})
     st, out = native(native_energy_check, 600)
     K.bounded('energy_numeric', st == 'ok' and out[0], {'evaluations': 15, 'distinct_nontrivial': 15, 'bound': '3 layouts (incl. leading zero samples) x 5 parameter sets (two with the first adaptive step longer than the fibre): finiteness, shape, energy law to 1e-9, SPM closed form',
